@@ -78,12 +78,24 @@ def legalPath (s : CStr) : Bool :=
 
 /-! ### check_valid_path -/
 
-/-- what `apply_master_ob (valid_read / valid_write)` gave back -/
+/-- what `apply_master_ob (valid_read / valid_write)` did.  `apply_master_ob` does NOT catch errors (it is not
+    `safe_apply_master_ob`): an error raised by the master function unwinds through `check_valid_path` and the
+    efun that called it. -/
 inductive Verdict where
   | deny                    -- T_NUMBER 0
-  | ok                      -- any other non-string value, or the master has no such function
+  | ok                      -- T_NUMBER 1
   | rewrite (s : CStr)      -- T_STRING: the master substitutes its own path
+  | odd (what : String)     -- any other value (negative / other int, float — even 0.0 —, array, object …):
+                            -- `!(type == T_NUMBER && number == 0)` and not a string ⇒ treated as approval
+  | absent                  -- the apply returned NULL: the master does not define the function ⇒ `v == 0` is
+                            -- treated as approval of the ORIGINAL path (as coded; cf. MASTER_APPROVED)
+  | raise                   -- the master function raised a runtime error: nothing is returned at all
   deriving Repr, DecidableEq
+
+/-- does control come back from the master call? -/
+def Verdict.raises : Verdict → Bool
+  | .raise => true
+  | _ => false
 
 /-- `if (ret_path[0] == '/') ret_path++;` -/
 def stripOneSlash (s : CStr) : CStr := if s.head? = some '/' then s.tail else s
@@ -100,7 +112,10 @@ def checkValidPath (callerOk : Bool) (v : Verdict) (path : CStr) : Option CStr :
   if !callerOk then none else
   match v with
   | .deny => none                            -- T_NUMBER 0
+  | .raise => none                           -- the error unwinds: no path, the caller does not continue
   | .ok => cvpFinish path                    -- ret_path = string_copy (path)
+  | .odd _ => cvpFinish path                 --   "
+  | .absent => cvpFinish path                --   "   (v == 0)
   | .rewrite s => cvpFinish s                -- ret_path = v->u.string
 
 /-! ### strip_name -/
